@@ -5,6 +5,7 @@ import (
 	"math/rand"
 	"sort"
 	"strings"
+	"sync"
 	"time"
 
 	"verif/internal/core"
@@ -44,8 +45,8 @@ func runC02(ctx *core.Ctx) {
 	ctx.Cases("c02garbage", ng, 4*workers(), func(i int, r *rand.Rand) {
 		execC02Garbage(ctx, core.CaseRef{Stream: "c02garbage", Index: i}, r)
 	})
-	ni := ctx.N(3, 12)
-	ctx.Cases("c02idle", ni, 3, func(i int, r *rand.Rand) {
+	ni := ctx.N(6, 24)
+	ctx.Cases("c02idle", ni, 6, func(i int, r *rand.Rand) {
 		execC02Idle(ctx, core.CaseRef{Stream: "c02idle", Index: i}, r)
 	})
 }
@@ -513,6 +514,10 @@ func trunc2(s string, n int) string {
 
 func execC02Idle(ctx *core.Ctx, ref core.CaseRef, r *rand.Rand) {
 	kind := []string{"tumbling", "sliding", "session"}[ref.Index%3]
+	if (ref.Index/3)%2 == 1 {
+		execC02IdleBusy(ctx, ref, r, kind)
+		return
+	}
 	c := &evCase{CaseRef: ref, Kind: kind, SizeMs: 1000, SlideMs: 1000, Grouped: true, Pattern: "idle", Feed: "paced"}
 	c.buildSQL()
 	const idleMs = 400
@@ -549,4 +554,97 @@ func execC02Idle(ctx *core.Ctx, ref core.CaseRef, r *rand.Rand) {
 	}
 	ctx.Count("idle.cases", 1)
 	ctx.Case(fmt.Sprintf("idle|%s|%d", kind, n), true, map[string]any{"sql": c.SQL, "events": n, "fired_after_ms": tSeen.Sub(lastEmit).Milliseconds()})
+}
+
+// execC02IdleBusy: a source that keeps sending rows which never raise the maximum timestamp (out of
+// order within MAXOUTOFORDERNESS) is busy, not idle: nothing may be delivered while rows keep coming at
+// a pace far below IDLETIMEOUT and no row passed window_end+MAXOUTOFORDERNESS, and none of those
+// on-time rows may be lost once the source really goes idle.
+func execC02IdleBusy(ctx *core.Ctx, ref core.CaseRef, r *rand.Rand, kind string) {
+	const idleMs, mooMs = 1000, 4000
+	c := &evCase{CaseRef: ref, Kind: kind, SizeMs: 1000, SlideMs: 1000, MooMs: mooMs, Grouped: true, Pattern: "idle_busy", Feed: "paced"}
+	c.buildSQL()
+	c.SQL = strings.Replace(c.SQL, "TIMEUNIT='ms'", fmt.Sprintf("TIMEUNIT='ms', IDLETIMEOUT='%dms'", idleMs), 1)
+	attrs := map[string]string{"kind": kind, "pattern": "idle_busy"}
+	attempt := func() (string, string, int) {
+		s, err := eng.New(c.SQL, eng.Opts{})
+		if err != nil {
+			return "idle.execute_error", err.Error(), 0
+		}
+		defer s.Stop()
+		var mu sync.Mutex
+		var lastEmit time.Time
+		var early string
+		delivered := map[int64]int{}
+		s.AddSyncSink(func(batch []map[string]any) {
+			now := time.Now()
+			mu.Lock()
+			defer mu.Unlock()
+			if since := now.Sub(lastEmit); !lastEmit.IsZero() && since < time.Duration(idleMs)*time.Millisecond/2 && early == "" {
+				early = fmt.Sprintf("a result was delivered %v after the latest Emit started (IDLETIMEOUT %dms) although no row had passed window_end+MAXOUTOFORDERNESS: %v", since, idleMs, batch)
+			}
+			for _, row := range batch {
+				ids, _ := idList(row["ids"])
+				for _, id := range ids {
+					delivered[int64(id)]++
+				}
+			}
+		})
+		// wall-clock timestamps well in the past; the first row carries the maximum, every later row is
+		// older but within MAXOUTOFORDERNESS, all inside one window/session
+		t0 := (time.Now().UnixMilli()/1000)*1000 - 20000
+		emit := func(id int, ts int64) {
+			mu.Lock()
+			lastEmit = time.Now()
+			mu.Unlock()
+			s.Emit(Row{"id": id, "ts": ts, "k": "a", "v": id})
+		}
+		emit(1, t0+2900)
+		n := 1
+		for end := time.Now().Add(2500 * time.Millisecond); time.Now().Before(end); {
+			n++
+			emit(n, t0+2000+int64(r.Intn(900)))
+			time.Sleep(20 * time.Millisecond)
+		}
+		mu.Lock()
+		e := early
+		mu.Unlock()
+		if e != "" {
+			return "idle.fired_while_source_busy", e, n
+		}
+		// now the source is idle: everything must be delivered, every row exactly where it belongs
+		deadline := time.Now().Add(15 * time.Second)
+		for time.Now().Before(deadline) {
+			mu.Lock()
+			got := len(delivered)
+			mu.Unlock()
+			if got >= n {
+				break
+			}
+			time.Sleep(20 * time.Millisecond)
+		}
+		mu.Lock()
+		defer mu.Unlock()
+		if len(delivered) < n {
+			return "idle.on_time_rows_lost", fmt.Sprintf("%d rows were sent (none older than max−MAXOUTOFORDERNESS), only %d were ever delivered after the source went idle for 15 s", n, len(delivered)), n
+		}
+		return "", "", n
+	}
+	kindV, detail, n := attempt()
+	if kindV != "" && kindV != "idle.execute_error" {
+		// wall-clock margins: a verdict must reproduce
+		k2, d2, _ := attempt()
+		if k2 == "" {
+			ctx.Inconclusive("idle-busy alarm did not reproduce")
+			return
+		}
+		kindV, detail = k2, d2
+	}
+	if kindV != "" {
+		ctx.Violate(core.Violation{Kind: kindV, Attrs: attrs, Detail: detail + "\n  sql: " + c.SQL, Case: c})
+		return
+	}
+	ctx.Count("idle.busy_cases", 1)
+	ctx.Count("idle.busy_rows", int64(n))
+	ctx.Case(fmt.Sprintf("idlebusy|%s|%d", kind, n), true, map[string]any{"sql": c.SQL, "rows": n, "mode": "busy out-of-order source"})
 }
